@@ -349,6 +349,17 @@ impl Tree {
 		}
 	}
 
+	/// The first two steps of `close()`: stop accepting commits and wake stalled writers.
+	pub fn verif_shutdown_signals(&self) {
+		self.core.commit_pipeline.shutdown();
+		self.core.write_stall.signal_shutdown();
+	}
+
+	/// (immutable memtables, L0 files) as the stall controller sees them.
+	pub fn verif_stall_counts(&self) -> (usize, usize) {
+		(self.core.inner.immutable_count(), self.core.inner.l0_file_count())
+	}
+
 	/// The sticky background error, if any.
 	pub fn verif_background_error(&self) -> Result<()> {
 		self.core.inner.error_handler.check_error()
